@@ -119,6 +119,7 @@ fn dump_escapes(tcx: TyCtxt<'_>) -> Vec<J> {
                 ("kind", J::s(if mutability.is_mut() { "static-mut" } else { "static" })),
                 ("in", J::s(path_str(tcx, did))),
                 ("ty", J::s(with_no_trimmed_paths!(ty.to_string()))),
+                ("freeze", J::Bool(ty.is_freeze(tcx, TypingEnv::fully_monomorphized()))),
                 ("file", J::s(f)),
                 ("line", J::Int(l)),
             ]));
